@@ -451,6 +451,11 @@ func (cs *clientStream) doHttpCall(transport http.RoundTripper, req *http.Reques
 		var sz int32
 		sz, rErr = readSizePreface(reply.Body)
 		if rErr != nil {
+			if rErr == io.EOF {
+				// a complete response always ends with a trailer
+				// frame, so this stream was cut short
+				rErr = io.ErrUnexpectedEOF
+			}
 			return
 		}
 		if sz < 0 {
